@@ -44,6 +44,7 @@ type c16Sess struct {
 	dw     *deferred.DeferredCarWriter
 
 	pathTap bool
+	roFirst bool
 }
 
 func (s *c16Sess) writes() int {
@@ -101,6 +102,7 @@ func c16Open(target, dir string, roots []cid.Cid, cfg lab.Cfg, faults []iofault.
 		}
 		s.tap = iofault.Tap(s.f)
 		s.tap.SetFaults(faults)
+		s.roFirst = len(faults) > 0 && faults[0].Keep%2 == 0
 		s.bs, err = blockstore.OpenReadWriteFile(s.f, roots, cfg.Opts()...)
 	}
 	return s, err
@@ -136,12 +138,26 @@ func (s *c16Sess) has(b refcar.Block) (bool, error, bool) { // third result: loo
 func (s *c16Sess) finalize() error {
 	switch {
 	case s.bs != nil:
+		if s.roFirst {
+			return s.bs.FinalizeReadOnly() // leaves the store open for reads: a later Finalize is a legal call
+		}
 		return s.bs.Finalize()
 	case s.dw != nil:
 		return s.dw.Close()
 	}
 	return s.sc.Finalize()
 }
+// finalizeAgain is the caller's second attempt after a failed finalization.
+func (s *c16Sess) finalizeAgain() error {
+	switch {
+	case s.bs != nil:
+		return s.bs.Finalize()
+	case s.dw != nil:
+		return s.dw.Close()
+	}
+	return s.sc.Finalize()
+}
+
 func (s *c16Sess) bytes() []byte {
 	if s.mf != nil {
 		return s.mf.Bytes()
@@ -256,6 +272,15 @@ func c16Run(t *mon.T, d c16Desc, dir string, roots []cid.Cid, rootsRaw [][]byte,
 	ff := step("finalize", ferr)
 	if ferr != nil || ff {
 		allLaterOK = false
+		if retry {
+			// the caller finalizes again: only an error, or a complete archive, will do
+			if rerr := s.finalizeAgain(); rerr == nil {
+				t.Cover("finalize-retried-and-succeeded")
+				allLaterOK = true
+			} else {
+				t.Cover("finalize-retried-and-refused")
+			}
+		}
 	}
 	_ = phaseOf
 	if !sawFault {
